@@ -74,8 +74,18 @@ func c15ExpSeconds(s string) int64 {
 		return 30
 	case "max":
 		return 2147483647
+	case "080":
+		return 80
 	}
 	return 0
+}
+
+// c15ExpText: how the value is written in the header (delta-seconds = 1*DIGIT: leading zeros are legal)
+func c15ExpText(s string) string {
+	if s == "080" {
+		return "080"
+	}
+	return fmt.Sprint(c15ExpSeconds(s))
 }
 
 type c15World struct {
@@ -172,7 +182,7 @@ func c15Exec(mode string, hist []c15Ev) (string, string, string) {
 			var extra []WHdr
 			L := T
 			if e := c15ExpSeconds(ev.Exp); e > 0 {
-				extra = append(extra, WHdr{"Expires", fmt.Sprint(e)})
+				extra = append(extra, WHdr{"Expires", c15ExpText(ev.Exp)})
 				if e*1e9 > L {
 					L = e * 1e9
 				}
@@ -454,7 +464,10 @@ func c15Events(two bool, thorough bool) []c15Ev {
 		nd = 2
 	}
 	for d := 0; d < nd; d++ {
-		for _, e := range []string{"none", "5", "30", "max"} {
+		for _, e := range []string{"none", "5", "30", "max", "080"} {
+			if e == "080" && d > 0 {
+				continue // delta-seconds written with a leading zero: first dialog only
+			}
 			evs = append(evs, c15Ev{Kind: "est", D: d, Exp: e})
 		}
 		evs = append(evs, c15Ev{Kind: "probe", D: d})
@@ -545,7 +558,7 @@ func c15Run(c *Ctx) {
 
 func init() {
 	addCheck(&Check{ID: "C15", Level: "model_checking", Collapse: true,
-		Rule:   "explicit-state BFS by replay on the VIRTUAL clock (dialogTimeout 10 s through YAML, through DEFAULT_DIALOG_TIMEOUT and through the real main()): events {establishing 200 with Expires none/5/30/2147483647 (repeatable), probe = 4 consecutive in-dialog requests, BYE answered 200/481/603(/503/302), NOTIFY active/terminated/terminated;reason (don't-care), clock steps 1/5/6/9.998/11/31 s, unrelated request with Expires none/2147483647}, one dialog to depth 5 (thorough 6), two dialogs to depth 4 (5); oracle: pinned before min(t_i+max(T,Expires_i)), load-balanced after max(...) or after termination, don't-care in between and within 1 ms of an expiry; table invariant after every traffic event: no entry expired for more than 2T while traffic flowed with gaps <= T/2; plus long runs pinning 200 dialogs (one poisoned by a huge Expires) and 6000 (thorough 30000) dialogs followed by 35 s of traffic ticks, and two long runs (200 and 1000 dialogs) whose population expires together and is partly re-established while the purge is under way; non-trivial = history longer than two events",
+		Rule:   "explicit-state BFS by replay on the VIRTUAL clock (dialogTimeout 10 s through YAML, through DEFAULT_DIALOG_TIMEOUT and through the real main()): events {establishing 200 with Expires none/5/30/2147483647/080 (repeatable), probe = 4 consecutive in-dialog requests, BYE answered 200/481/603(/503/302), NOTIFY active/terminated/terminated;reason (don't-care), clock steps 1/5/6/9.998/11/31 s, unrelated request with Expires none/2147483647}, one dialog to depth 5 (thorough 6), two dialogs to depth 4 (5); oracle: pinned before min(t_i+max(T,Expires_i)), load-balanced after max(...) or after termination, don't-care in between and within 1 ms of an expiry; table invariant after every traffic event: no entry expired for more than 2T while traffic flowed with gaps <= T/2; plus long runs pinning 200 dialogs (one poisoned by a huge Expires) and 6000 (thorough 30000) dialogs followed by 35 s of traffic ticks, and two long runs (200 and 1000 dialogs) whose population expires together and is partly re-established while the purge is under way; non-trivial = history longer than two events",
 		Assume: []string{"real-time expiry on the real binary is not replayed: a wall-clock oracle at the scale of seconds alarms falsely under load (DESIGN.md §2.8)", "consecutive clock steps are explored in non-decreasing order only (they commute)"},
 		Run:    c15Run,
 		Replay: func(c *Ctx, raw json.RawMessage) string {
